@@ -2,11 +2,11 @@
 package main
 
 import (
-	"strings"
 	"flag"
 	"fmt"
 	"os"
 	"path/filepath"
+	"strings"
 	"sync"
 
 	"verif/harness/world"
